@@ -436,6 +436,20 @@ func genLifecycle(r *Rng, idx int, tier string, step func(op string) string) {
 			on := !gates[kind]
 			gates[kind] = on
 			do(fmt.Sprintf("gate kind=%s on=%s", kind, b01(on)))
+		case roll < 62:
+			if st == "Stopped" {
+				// files vanish while stopped and the next start is interrupted during allocation / verification
+				do(fmt.Sprintf("mutate file=%s how=delete off=0", r.Pick2("all", fmt.Sprint(r.Intn(len(l.lens))))))
+				kind := r.Pick2("open", "read")
+				do(fmt.Sprintf("gate kind=%s on=1", kind))
+				do("start")
+				do("stop")
+				do(fmt.Sprintf("gate kind=%s on=0", kind))
+				gates[kind] = false
+				do("start")
+			} else {
+				do("obs")
+			}
 		case roll < 72:
 			if st == "Stopped" {
 				how := r.Pick2("delete", "delete", "corrupt", "fill")
